@@ -98,6 +98,7 @@ type Interp struct {
 	prog    *ssa.Program
 	tt      *TermTable
 	solver  *Solver
+	solverAlt map[string]*Solver // per-kind solvers of this worker (verif:solver directive)
 	cfg     Config
 	globals map[*ssa.Global]Ptr
 	pkgInit map[*ssa.Package]int
@@ -128,6 +129,8 @@ type Interp struct {
 	unwindOverride int
 	pendingObs []pendingObs
 	thorough bool
+	pathVars []*Term
+	fpBitsMemo map[*Term]*Term // per path: math.Float64bits of the same FP term yields the same bits variable
 
 	// sinks
 	onFork      func(prefix []Decision, model map[string]uint64)
@@ -196,6 +199,8 @@ func (in *Interp) resetPath(prefix []Decision, model map[string]uint64) {
 	in.goInlined = 0
 	in.unwindOverride = 0
 	in.pendingObs = nil
+	in.pathVars = nil
+	in.fpBitsMemo = nil
 	in.solver.Reset()
 }
 
@@ -242,7 +247,7 @@ func (in *Interp) check(extra *Term) (string, map[string]uint64) {
 	var m map[string]uint64
 	if res == "sat" {
 		var err error
-		m, err = in.solver.Values(in.tt.vars)
+		m, err = in.solver.Values(in.pathVars)
 		if err != nil {
 			in.solver.Errors = append(in.solver.Errors, err.Error())
 			res = "error"
@@ -785,7 +790,10 @@ func (in *Interp) ensureInit(pkg *ssa.Package) {
 			case *targetPanic:
 				in.warn(fmt.Sprintf("init of %s panicked: %s", pkg.Pkg.Path(), r.msg))
 			default:
-				panic(r)
+				if _, isStr := r.(string); isStr {
+					panic(r)
+				}
+				panic(fmt.Sprintf("%v (engine-level failure while running init of %s)", r, pkg.Pkg.Path()))
 			}
 		}
 	}()
@@ -1275,6 +1283,9 @@ func (in *Interp) copyInto(dst, src []Value) {
 
 // symRead builds an ite chain selecting base[idx].
 func (in *Interp) symRead(base []Value, idx *Term) Value {
+	if r, ok := in.symReadPeel(base, idx); ok { // equivalent smaller term, see intrinsics_c04.go
+		return r
+	}
 	n := len(base)
 	last, ok := base[n-1].(*Term)
 	if !ok {
